@@ -78,7 +78,7 @@ SemEnds(s, name, hi, p) ==
                            /\ q <= Len(s) + 1
                            /\ \A i \in p..(p + 5) : s[i] \in Upper
                            /\ \A i \in (p + 6)..(q - 1) : s[i] \in Upper \cup Digits}
-    [] name \in {"AMT", "AMT0"} -> {q \in (p + 1)..(p + hi) :
+    [] name \in {"AMT", "AMT0", "RATE"} -> {q \in (p + 1)..(p + hi) :
                            /\ q <= Len(s) + 1
                            /\ s[p] \in Digits
                            /\ \A i \in p..(q - 1) : s[i] \in Digits \cup {","}
@@ -119,7 +119,11 @@ NoSlashEdge(s) == /\ Len(s) > 0 /\ s[1] # "/" /\ s[Len(s)] # "/"
 \* So for such contents the optional first line is matched as present.
 IdLineFirst(fmt) == fmt[1].k = "opt" /\ fmt[1].body[Len(fmt[1].body)].k = "nl" /\ Len(fmt) > 1
 IdAlts(fmt) == fmt[1].k = "alt" /\ "idn" \in DOMAIN fmt[1]     \* the first idn alternatives start with the identifier
-EffFmt(fmt, s) == IF Len(s) = 0 \/ s[1] # "/" THEN fmt
+\* (the same for formats whose optional "/identifier" line is the second line: 50F)
+SecondLineSlash(s) == \E i \in 1..(Len(s) - 1) : s[i] = "\n" /\ s[i + 1] = "/" /\ \A j \in 1..(i - 1) : s[j] # "\n"
+IdLineSecond(fmt) == Len(fmt) >= 3 /\ fmt[2].k = "nl" /\ fmt[3].k = "opt" /\ fmt[3].body[1].k = "lit" /\ fmt[3].body[1].ch = "/"
+EffFmt(fmt, s) == IF IdLineSecond(fmt) /\ SecondLineSlash(s) THEN SubSeq(fmt, 1, 2) \o fmt[3].body \o SubSeq(fmt, 4, Len(fmt))
+                  ELSE IF Len(s) = 0 \/ s[1] # "/" THEN fmt
                   ELSE IF IdLineFirst(fmt) THEN fmt[1].body \o Tail(fmt)
                   ELSE IF IdAlts(fmt) THEN <<[fmt[1] EXCEPT !.alts = SubSeq(@, 1, fmt[1].idn)]>> \o Tail(fmt)
                   ELSE fmt
@@ -148,6 +152,8 @@ SemTyp(name) ==
     [] name = "CUR" -> <<"U", "S", "D">> [] name = "BIC" -> <<"D", "E", "U", "T", "D", "E", "F", "F">>
     [] name = "AMT" -> <<"1", "2", "3", "4", ",", "5", "6">>
     [] name = "AMT0" -> <<"1", "2", ",", "5", "6">>      \* an amount / rate that may be zero
+    [] name = "RATE" -> <<"1", "2", "3", "4", ",", "5", "6">>   \* field 36: a rate within its documented plausibility
+                                                               \* range (no length-boundary variants: they leave it)
 SemVar(name) ==     \* ordered, so that a variant can be named by its index
   CASE name = "DATE" -> << <<"2", "4", "1", "3", "0", "1">>, <<"2", "3", "0", "2", "2", "9">>, <<"2", "4", "0", "2", "2", "9">>,
                            <<"2", "4", "0", "7", "1">>, <<"2", "4", "0", "7", "1", "A">>, <<"2", "4", "0", "7", "0", "0">>,
@@ -171,6 +177,7 @@ SemVar(name) ==     \* ordered, so that a variant can be named by its index
                            <<"D", "E", "U", "T", "D", "E", "F", "F", "1", "2", "3">>,
                            <<"D", "E", "U", "T", "D", "E", "F", "f">> >>
     [] name = "AMT"  -> << <<"1", ",">>, <<"a", "b", "c">>, <<>>, <<",", "5">>, <<"1", ",", "2", ",", "3">> >>
+    [] name = "RATE" -> << <<"1", ",">>, <<"a", "b", "c">>, <<>>, <<",", "5">>, <<"1", ",", "2", ",", "3">> >>
     [] name = "AMT0" -> << <<"1", ",">>, <<"a", "b", "c">>, <<>>, <<"0", ",">>, <<"0", ",", "0", "0">>, <<"0", ",", "5">>,
                            <<",", "5">> >>
 
@@ -218,6 +225,10 @@ Vars(c) ==
     [] c.k = "alt"   -> {V("alt" \o ToString(a), TypSeq(c.alts[a], 1)) : a \in 2..Len(c.alts)}
                         \cup Pre("alt1.", VarsSeq(c.alts[1], 1))
     [] c.k = "sem"   -> {V(c.cls \o ToString(i), SemVar(c.cls)[i]) : i \in 1..Len(SemVar(c.cls))}
+                        \* an amount / rate as long as its component allows, and one character longer
+                        \cup (IF c.cls \in {"AMT", "AMT0"}
+                              THEN {V(c.cls \o "-max", Run("n", c.max - 1) \o <<",">>),
+                                    V(c.cls \o "-max+1", Run("n", c.max) \o <<",">>)} ELSE {})
     [] c.k = "code"  -> {V("code-other", w) : w \in (c.set \ {Typ(c)})}
                         \cup {V("code-unknown", <<"Z", "Z", "Z", "Z">>), V("code-lower", WithLast(Typ(c), "z")),
                               V("code-long", Typ(c) \o <<"X">>)}
@@ -256,6 +267,11 @@ PartyLoc == <<AltId(<< <<PI, NL, Cl("x", 1, 35)>>, <<PI>>, <<Cl("x", 1, 35)>> >>
 \* "idline": the format starts with an optional account line [/34x] on a line of its own
 First(fmt) == IF fmt[1].k = "opt" /\ Len(fmt[1].body) = 3 /\ fmt[1].body[1].k = "lit" /\ fmt[1].body[3].k = "nl"
               THEN "idline" ELSE "none"
+\* number of the line (1 or 2) that is an optional "/identifier" line of its own, 0 if the format has none:
+\* when that line starts with "/" the parsed value must show it as identifier, not among the text lines
+SlashLine(c) == c.k = "opt" /\ Len(c.body) = 3 /\ c.body[1].k = "lit" /\ c.body[1].ch = "/" /\ c.body[3].k = "nl"
+IdLine(fmt) == IF SlashLine(fmt[1]) THEN 1
+               ELSE IF Len(fmt) >= 3 /\ fmt[2].k = "nl" /\ SlashLine(fmt[3]) THEN 2 ELSE 0
 F(tag, fmt)  == [tag |-> tag, fmt |-> fmt, slash |-> FALSE, amt |-> FALSE]
 FS(tag, fmt) == [tag |-> tag, fmt |-> fmt, slash |-> TRUE,  amt |-> FALSE]
 FA(tag, fmt) == [tag |-> tag, fmt |-> fmt, slash |-> FALSE, amt |-> TRUE]
@@ -297,6 +313,9 @@ Formats == {
   F("50",  <<Name4>>),
   F("50A", <<Acct, Numbered>>),
   F("50C", <<Sem("BIC", 11)>>),
+  \* the library's own 50F: account CRLF [/party identifier CRLF] [1-4 name and address lines CRLF] BIC
+  F("50F", <<Cl("x", 1, 35), NL, Opt(<<Lit("/"), Cl("x", 1, 34), NL>>), Opt(<<Lines(1, 4, <<Cl("x", 1, 35)>>), NL>>),
+             Sem("BIC", 11)>>),
   F("50G", <<Lit("/"), Cl("x", 1, 34), NL, Sem("BIC", 11)>>),
   F("50H", <<Lit("/"), Cl("x", 1, 34), NL, Name4>>),
   F("50K", <<Acct, Name4>>),
@@ -329,14 +348,14 @@ Formats == {
   F("79",  <<Lines(1, 35, <<Cl("x", 1, 50)>>)>>),
   F("86",  <<Lines(1, 6, <<Cl("x", 1, 65)>>)>>),
   FA("19",  <<Sem("AMT", 17)>>),
-  FA("36",  <<Sem("AMT", 12)>>),
+  FA("36",  <<Sem("RATE", 12)>>),
   FA("37H", <<Sem("DC", 1), Opt(<<Lit("N")>>), Sem("AMT0", 12)>>),
   FA("90C", <<Cl("n", 1, 5), Sem("CUR", 3), Sem("AMT", 15)>>),
   FA("90D", <<Cl("n", 1, 5), Sem("CUR", 3), Sem("AMT", 15)>>)
 }
 
 (* field types with formats the algebra does not express faithfully (listed as not covered):
-   23 (days allowed for one function only), 28D (index <= total), 50F (structured lines with codes), 77T (9000z) *)
+   23 (days allowed for one function only), 28D (index <= total), 77T (9000z) *)
 
 VARIABLES fld, content
 vars == <<fld, content>>
@@ -351,5 +370,6 @@ TypicalAccepted == InLanguage(fld, TypSeq(fld.fmt, 1))
 NonEmpty == InLanguage(fld, content.s) => Len(content.s) > 0
 
 Emit == EmitCases => PrintT(ToJson([tag |-> fld.tag, l |-> content.l, s |-> content.s,
-                                    accept |-> InLanguage(fld, content.s), amt |-> fld.amt, first |-> First(fld.fmt)]))
+                                    accept |-> InLanguage(fld, content.s), amt |-> fld.amt, first |-> First(fld.fmt),
+                                    idl |-> IdLine(fld.fmt)]))
 =============================================================================
